@@ -256,7 +256,11 @@ func (c *Conn) ping(ctx context.Context, p string) error {
 	case <-c.closed:
 		return net.ErrClosed
 	case <-ctx.Done():
-		return fmt.Errorf("failed to wait for pong: %w", ctx.Err())
+		// As documented on Conn, a context that ends during a call closes the
+		// connection; that includes waiting for the pong.
+		err := fmt.Errorf("failed to wait for pong: %w", ctx.Err())
+		c.close()
+		return err
 	case <-pong:
 		return nil
 	}
